@@ -147,6 +147,68 @@ Definition c01_on (S : tsdoc) (D : opdoc) (d : execdef) (t : tstype) : bool :=
       negb (is_nil real) && forallb (fun p => admits E HT_FUEL t (snd p)) real
   end.
 
+(** ** Ref_local with shared work.
+    [den] tries every assignment of the local variables at every object of the value; assignments that
+    collect the SAME fields (very common: variables that only matter deeper, repeated fields) make a
+    failing value be explored again and again (exponentially in the nesting depth).  [den_dd] is [den]
+    with the assignments of a selection set replaced by the DISTINCT CollectFields results; two results
+    are identified when they have the same (key, field name, positions of the sub-selections) sequence —
+    within one parsed document a position identifies a selection, so nothing but repetitions is dropped
+    (a trusted assumption of this evaluator only; the theorems are about [den]). *)
+Definition sel_pos1 (x : selection) : pos :=
+  match x with SField _ n _ _ _ => ipos n | SSpread p _ _ => p | SInline p _ _ _ => p end.
+Definition es_sig (es : list centry) : list (str * str * list pos) :=
+  map (fun e => (ce_key e, ce_name e, map sel_pos1 (ce_sub e))) es.
+Definition sig_eqb (a b : list (str * str * list pos)) : bool :=
+  list_eqb (fun x y => str_eqb (fst (fst x)) (fst (fst y)) && str_eqb (snd (fst x)) (snd (fst y))
+                       && list_eqb pos_eqb (snd x) (snd y)) a b.
+Fixpoint distinct_by_sig (seen : list (list (str * str * list pos))) (l : list (list centry)) : list (list centry) :=
+  match l with
+  | [] => []
+  | es :: r =>
+      let sg := es_sig es in
+      if existsb (sig_eqb sg) seen then distinct_by_sig seen r else es :: distinct_by_sig (sg :: seen) r
+  end.
+
+Section DenDD.
+  Variable S : tsdoc.
+  Variable F : list fragdef.
+  Variable cf : nat.
+  Variable relax : bool.
+
+  Definition distinct_es (o : str) (sels : list selection) : list (list centry) :=
+    distinct_by_sig [] (map (fun sg => fst (collect S F (included sg) o cf sels [])) (local_choices cf F sels)).
+
+  Fixpoint den_dd (fuel : nat) (T : str) (sels : list selection) (v : val) {struct fuel} : bool :=
+    match fuel with
+    | O => false
+    | Datatypes.S f =>
+        match v with
+        | VObj kvs =>
+            nodup_keys (map fst kvs) &&
+            existsb (fun o =>
+              existsb (fun es =>
+                same_keys (map fst kvs) (keys_of es) &&
+                forallb (fun kv =>
+                  let fname := name_of es (fst kv) in
+                  if relax && str_eqb fname SP_TYPENAME && negb (str_eqb (fst kv) SP_TYPENAME)
+                  then match snd kv with VNull | VStr _ => true | _ => false end
+                  else
+                  match sp_field_type S o fname with
+                  | None => false
+                  | Some t =>
+                      complete (fun n x =>
+                        if str_eqb fname SP_TYPENAME then match x with VStr y => str_eqb y o | _ => false end
+                        else match sp_kind S n with
+                             | LComposite => den_dd f n (sub_of es (fst kv)) x
+                             | k => scalar_den k x
+                             end) t (snd kv)
+                  end) kvs) (distinct_es o sels)) (sp_possible S T)
+        | _ => false
+        end
+    end.
+End DenDD.
+
 (** ** C02 on the implementation's type: every enumerated value it admits is in Ref_local *)
 Definition c02_with (relaxed : bool) (S : tsdoc) (D : opdoc) (d : execdef) (t : tstype) : bool :=
   match def_target S d with
@@ -156,7 +218,7 @@ Definition c02_with (relaxed : bool) (S : tsdoc) (D : opdoc) (d : execdef) (t : 
       let E := schema_env S in
       let fuel := sp_fuel D in
       let inh := filter (admits E HT_FUEL t) (sample CAND_CAP (inhabitants E HT_FUEL t)) in
-      negb (is_nil inh) && forallb (fun v => den S F fuel (local_choices fuel F) relaxed fuel T sels v) inh
+      negb (is_nil inh) && forallb (fun v => den_dd S F fuel relaxed fuel T sels v) inh
   end.
 Definition c02_on := c02_with false.
 
